@@ -68,6 +68,13 @@ impl TestCase {
                 });
             }
         }
+        // an execution that ended without an exit code (killed by a signal, or
+        // never run because an earlier one ended that way) can never be valid
+        if output.exit_code == ExitStatus::Unknown {
+            return Err(TestCaseError::InternalError(anyhow::anyhow!(
+                "execution ended without an exit code"
+            )));
+        }
         let diff_tool = DiffTool::new(self.expectations.clone());
         let stream = if self.config.output_stream == Some(OutputStreamControl::Stderr) {
             &output.stderr
